@@ -145,7 +145,197 @@ loop("resolve._filter_by_matching_antecedent", 1,
         "complete": "forall(lambda i: implies(0 <= i and i < k and M(i), 0 <= ghost.minv[i] and ghost.minv[i] < len(matches) and ghost.midx[ghost.minv[i]] == i))",
     })
 R.contracts["resolve._filter_by_matching_antecedent"].ghost = {"midx": "seq[int]", "minv": "seq[int]"}
-R.contracts["resolve._filter_by_matching_antecedent"].requires["ghost0"] = "len(ghost.midx) == 0 and len(ghost.minv) == 0"
+R.contracts["resolve._filter_by_matching_antecedent"].ghost_init["ghost0"] = "len(ghost.midx) == 0 and len(ghost.minv) == 0"
 ghost_code("resolve._filter_by_matching_antecedent", "loop1:body_end",
     "ghost.minv = seq_append(ghost.minv, ite(M(k), len(matches) - 1, 0 - 1))\n"
     "ghost.midx = ite(M(k), seq_append(ghost.midx, k), ghost.midx)")
+
+# ------------------------------------------------------------------------------------------------ reference / supra
+NAME_FIELDS = ["plaintiff", "defendant", "resolved_case_name_short", "resolved_case_name"]
+# statement: "attached only to the unique previously cited case whose party (or resolved) names match it"
+_pairs = " or ".join(
+    f"(truthy(reference_citation.metadata.{f}) and truthy(resolved_full_cites[i][0].metadata.{g}) and "
+    f"reference_citation.metadata.{f} == resolved_full_cites[i][0].metadata.{g})"
+    for f in NAME_FIELDS for g in NAME_FIELDS)
+REF_DEFS = {"MR": f"lambda i: isinstance(resolved_full_cites[i][0], FullCaseCitation) and ({_pairs})"}
+
+MD_WF = ("forall(lambda i: implies(0 <= i and i < len(resolved_full_cites), metadata_wf(resolved_full_cites[i][0])))")
+
+
+@spec("metadata_wf")
+def _metadata_wf(e, st, c):
+    """class invariant established by CitationBase.__post_init__: type(c.metadata) is type(c).Metadata"""
+    from pyvc.values import class_of
+    md = e.load_field(st, c, "metadata")
+    cases = []
+    for cname, ci in e.repo.classes.items():
+        if "CitationBase" in e.repo.mro(cname) and not cname.endswith(".Metadata"):
+            mc = e.repo.metadata_class(cname)
+            cases.append(Implies(class_of(c.v) == ci.cid, class_of(md.v) == e.repo.classes[mc].cid))
+    return SV(BOOL, And(Not(md.none), *cases))
+
+
+def uniqueness_clauses(M):
+    rfc = "resolved_full_cites"
+    n = f"len({rfc})"
+    return {
+        "unique": f"implies(result is not None, forall(lambda i: implies(0 <= i and i < {n} and {M}(i), reskey({rfc}[i][1]) == reskey(result))))",
+        "member": f"implies(result is not None, exists(lambda i: 0 <= i and i < {n} and {M}(i) and {rfc}[i][1] is result))",
+        "ambiguous_none": f"implies(exists(lambda i, j: 0 <= i and i < {n} and 0 <= j and j < {n} and {M}(i) and {M}(j) and reskey({rfc}[i][1]) != reskey({rfc}[j][1])), result is None)",
+        "nomatch_none": f"implies(forall(lambda i: implies(0 <= i and i < {n}, not {M}(i))), result is None)",
+        "resolves_unique": f"implies(exists(lambda i: 0 <= i and i < {n} and {M}(i)) and forall(lambda i, j: implies(0 <= i and i < {n} and 0 <= j and j < {n} and {M}(i) and {M}(j), reskey({rfc}[i][1]) == reskey({rfc}[j][1]))), result is not None)",
+    }
+
+
+contract("resolve._filter_by_matching_plaintiff_or_defendant_or_resolved_names",
+    types={"resolved_full_cites": "seq[tuple[obj<FullCitation>,obj<Resource>]]", "reference_citation": "obj<ReferenceCitation>"},
+    returns="obj<Resource>", noraise=True, prop="C07",
+    requires={"rfc_wf": RFC_WF, "md_wf": MD_WF,
+              "ref": "reference_citation is not None and reference_citation.metadata is not None"},
+    defs=REF_DEFS, locals_types={"matches": "seq[obj<Resource>]"}, merge_ifs=True,
+    ghost={"midx": "seq[int]", "minv": "seq[int]"},
+    ensures=uniqueness_clauses("MR"))
+R.contracts["resolve._filter_by_matching_plaintiff_or_defendant_or_resolved_names"].ghost_init["ghost0"] = "len(ghost.midx) == 0 and len(ghost.minv) == 0"
+
+loop("resolve._filter_by_matching_plaintiff_or_defendant_or_resolved_names", 2,
+    invariant={
+        "matches_wf": "matches is not None and len(matches) == len(ghost.midx) and len(ghost.minv) == k",
+        "sound": "forall(lambda j: implies(0 <= j and j < len(matches), 0 <= ghost.midx[j] and ghost.midx[j] < k and MR(ghost.midx[j]) "
+                 "and matches[j] is resolved_full_cites[ghost.midx[j]][1] and ghost.minv[ghost.midx[j]] == j))",
+        "complete": "forall(lambda i: implies(0 <= i and i < k and MR(i), 0 <= ghost.minv[i] and ghost.minv[i] < len(matches) and ghost.midx[ghost.minv[i]] == i))",
+    })
+ghost_code("resolve._filter_by_matching_plaintiff_or_defendant_or_resolved_names", "loop2:body_end",
+    "ghost.minv = seq_append(ghost.minv, ite(MR(k), len(matches) - 1, 0 - 1))\n"
+    "ghost.midx = ite(MR(k), seq_append(ghost.midx, k), ghost.midx)")
+
+contract("resolve._resolve_supra_citation",
+    types={"supra_citation": "obj<SupraCitation>", "resolved_full_cites": "seq[tuple[obj<FullCitation>,obj<Resource>]]"},
+    returns="obj<Resource>", noraise=True, prop="C07",
+    requires={"rfc_wf": RFC_WF, "cite": "supra_citation is not None and supra_citation.metadata is not None"},
+    defs={"M": ANTE_DEFS["M"].replace("antecedent_guess", "supra_citation.metadata.antecedent_guess")},
+    ensures=dict({k_: (v_ if k_ != "resolves_unique" else "implies(truthy(supra_citation.metadata.antecedent_guess), " + v_ + ")") for k_, v_ in uniqueness_clauses("M").items()},
+                 no_guess_none="implies(not truthy(supra_citation.metadata.antecedent_guess), result is None)"))
+for _k in ("nomatch_none", "ambiguous_none", "resolves_unique"):
+    pass
+
+contract("resolve._resolve_reference_citation",
+    types={"reference_citation": "obj<ReferenceCitation>", "resolved_full_cites": "seq[tuple[obj<FullCitation>,obj<Resource>]]"},
+    returns="obj<Resource>", noraise=True, prop="C07",
+    requires={"rfc_wf": RFC_WF, "md_wf": MD_WF,
+              "ref": "reference_citation is not None and reference_citation.metadata is not None"},
+    defs=REF_DEFS,
+    ensures=dict({k_: (v_ if k_ != "resolves_unique" else "implies(truthy(reference_citation.metadata.defendant) or truthy(reference_citation.metadata.plaintiff) or truthy(reference_citation.metadata.resolved_case_name_short) or truthy(reference_citation.metadata.resolved_case_name), " + v_ + ")") for k_, v_ in uniqueness_clauses("MR").items()},
+                 no_names_none="implies(not truthy(reference_citation.metadata.defendant) and not truthy(reference_citation.metadata.plaintiff)"
+                               " and not truthy(reference_citation.metadata.resolved_case_name_short) and not truthy(reference_citation.metadata.resolved_case_name), result is None)"))
+
+# ------------------------------------------------------------------------------------------------ id. pin-cite window
+from pyvc import cpy_tables
+pin_lo = z3.Function("pin_lo", z3.StringSort(), z3.IntSort())
+pin_hi = z3.Function("pin_hi", z3.StringSort(), z3.IntSort())
+
+
+def _D():
+    return cpy_tables.char_class("re_d")
+
+
+def pin_axioms(e, st, s):
+    """E-RE-LANG(r"(?:at )?(\\d+)") for re.match: it matches iff s is in (at )?\\d+.*, and group 1 is then the
+    maximal digit run starting right after the optional "at " (greedy, nothing follows the group)."""
+    key = "pin:" + s.sexpr()
+    done = st.__dict__.setdefault("_int_ax", set())
+    if key in done:
+        return
+    done.add(key)
+    D = _D()
+    has = z3.InRe(s, z3.Concat(z3.Option(z3.Re("at ")), z3.Plus(D), z3.Full(z3.ReSort(z3.StringSort()))))
+    lo, hi = pin_lo(s), pin_hi(s)
+    st.assume(Implies(has, And(Or(lo == 0, lo == 3), (lo == 3) == z3.PrefixOf(z3.StringVal("at "), s), lo < hi, hi <= z3.Length(s),
+                               z3.InRe(z3.SubString(s, lo, hi - lo), z3.Plus(D)),
+                               Or(hi == z3.Length(s), Not(z3.InRe(z3.SubString(s, hi, 1), D))))))
+    e.trust("E-RE-LANG(r\"(?:at )?(\\d+)\"): re.match succeeds iff the text is in (at )?\\d+.* and group 1 is the maximal digit run there (lemma 4.2)")
+    return has
+
+
+@spec("has_pin_num")
+def _has_pin_num(e, st, s):
+    D = _D()
+    pin_axioms(e, st, s.v)
+    return SV(BOOL, And(Not(s.none), z3.InRe(s.v, z3.Concat(z3.Option(z3.Re("at ")), z3.Plus(D), z3.Full(z3.ReSort(z3.StringSort()))))))
+
+
+@spec("pin_num")
+def _pin_num(e, st, s):
+    from pyvc import builtins_model as bm
+    pin_axioms(e, st, s.v)
+    d = z3.SubString(s.v, pin_lo(s.v), pin_hi(s.v) - pin_lo(s.v))
+    bm.int_axioms(e, st, d)
+    return SV(INT, bm.str_to_int(d))
+
+
+@spec("is_udigits")
+def _is_udigits(e, st, s):
+    return SV(BOOL, And(Not(s.none), z3.InRe(s.v, z3.Plus(_D()))))
+
+
+@spec("page_shape")
+def _page_shape(e, st, s):
+    """language of PAGE_NUMBER_REGEX = \\d+ | roman | _+ ; only the part used here: a page that satisfies
+    str.isdigit() is a \\d+ string (roman numerals and underscores are not isdigit())."""
+    from pyvc import builtins_model as bm
+    bm.int_axioms(e, st, s.v)
+    return SV(BOOL, Or(s.none, Implies(bm.str_isdigit(s.v), z3.InRe(s.v, z3.Plus(_D())))))
+
+
+@spec("on_re_match")
+def _on_re_match(e, st, m, fname, pat, text, kw):
+    from pyvc import builtins_model as bm
+    if pat.tag and pat.tag[0] == "lit" and pat.tag[1] == r"(?:at )?(\d+)" and fname == "match" and text.ty.kind == "str":
+        has = pin_axioms(e, st, text.v)
+        D = _D()
+        hasf = z3.InRe(text.v, z3.Concat(z3.Option(z3.Re("at ")), z3.Plus(D), z3.Full(z3.ReSort(z3.StringSort()))))
+        st.assume(m.none == Not(hasf))
+        g = z3.StringVal("#1")
+        st.assume(Implies(Not(m.none), And(bm.m_ghas(m.v, g), bm.m_gstart(m.v, g) == pin_lo(text.v), bm.m_gend(m.v, g) == pin_hi(text.v))))
+
+
+INV = ("((isinstance_exact(full_cite, FullCaseCitation) and full_cite.groups.get('page') is None) or "
+       "(not (isinstance_exact(full_cite, FullCaseCitation) and full_cite.groups.get('page') is None) and truthy(id_cite.metadata.pin_cite) "
+       "and is_udigits(full_cite.groups.get('page')) and (not has_pin_num(id_cite.metadata.pin_cite) "
+       "or pin_num(id_cite.metadata.pin_cite) < str_to_int(full_cite.groups.get('page')) "
+       "or pin_num(id_cite.metadata.pin_cite) > str_to_int(full_cite.groups.get('page')) + 150)))")
+
+contract("resolve._has_invalid_pin_cite",
+    types={"full_cite": "obj<FullCitation>", "id_cite": "obj<IdCitation>"}, returns="bool", noraise=True, prop="C07",
+    requires={
+        "args": "full_cite is not None and id_cite is not None and full_cite.groups is not None and id_cite.metadata is not None",
+        # class invariant of citations built from the shipped extractors: the page group matches PAGE_NUMBER_REGEX (digit-shape lemma 4.2)
+        "page_shape": "page_shape(full_cite.groups.get('page'))",
+        # pin cites come from a 300-character match window (helpers.MAX_MATCH_CHARS)
+        "pin_len": "id_cite.metadata.pin_cite is None or len(id_cite.metadata.pin_cite) <= 300",
+    },
+    ensures={
+        # from the statement: unresolved when the antecedent has a placeholder page, or when the pin cite is
+        # non-numeric or lies before the first page or implausibly far (150 pages) beyond it
+        "window": f"result == {INV}",
+    },
+    props={"window": "C07"})
+
+contract("resolve._resolve_id_citation",
+    types={"id_citation": "obj<IdCitation>", "last_resolution": "obj<Resource>",
+           "resolutions": "defaultdict[obj<Resource>,seq[obj<CitationBase>]]"},
+    returns="obj<Resource>", noraise=True, prop="C07",
+    requires={
+        "id": "id_citation is not None and id_citation.metadata is not None",
+        "pin_len": "id_citation.metadata.pin_cite is None or len(id_citation.metadata.pin_cite) <= 300",
+        # loop invariant (vi) of resolve_citations: the last resolution is a key with a non-empty list whose head is a full citation
+        "last_in_keys": "implies(last_resolution is not None, map_has(resolutions, reskey(last_resolution)) and len(map_get(resolutions, reskey(last_resolution))) >= 1 "
+                        "and map_get(resolutions, reskey(last_resolution))[0] is not None and isinstance(map_get(resolutions, reskey(last_resolution))[0], FullCitation) "
+                        "and map_get(resolutions, reskey(last_resolution))[0].groups is not None and page_shape(map_get(resolutions, reskey(last_resolution))[0].groups.get('page')))",
+    },
+    defs={"INVALID": "lambda: " + INV.replace("full_cite", "typed(map_get(resolutions, reskey(last_resolution))[0], 'obj<FullCitation>')").replace("id_cite", "id_citation")},
+    ensures={
+        # an id. citation is attached only to the resource of the citation immediately before it ...
+        "only_last": "result is None or result is last_resolution",
+        # ... and is left unresolved when that citation is unresolved or the pin cite is implausible
+        "none_iff": "(result is None) == (last_resolution is None or INVALID())",
+    })
